@@ -205,8 +205,41 @@ def plan_history(rng, region, tier):
     return net
 
 
-def gen(rng, tier):
+def bias_histories(rng, tier):
+    """fixed plans with a join bias: a join accepted at the first / second attempt without a CFList, the application's data rate set to each
+    uplink rate of the region (the 500 kHz rate included) before or after the join, then data uplinks while the bias is still in force"""
     lines = []
+    for region in machist.FIXED:
+        for dr in machist.UPLINK_DR[region]:
+            for n in ((2, 10) if tier == "quick" else (1, 2, 3, 10)):
+                for attempts in (1, 2):
+                    for early in (False, True):
+                        r = rng.fork("b%d.%d.%d.%d.%d" % (region, dr, n, attempts, early))
+                        net = machist.Net(r, region, 22, 0, "%d:%d" % (r.range(1, 8), n))
+                        if early:
+                            net.op("dr %d" % dr)
+                        for _ in range(attempts - 1):
+                            net.snap()
+                            net.otaa_request(ndraws=140)
+                            net.snap()
+                            net.rx2c()
+                        net.snap()
+                        net.otaa_request(ndraws=140)
+                        net.snap()
+                        net.join_accept(dl_settings=0, rx_delay=1, cflist=b"")
+                        if not early:
+                            net.op("dr %d" % dr)
+                        for _ in range(4):
+                            net.snap()
+                            net.op("send 78 1 0 %s" % cover(r, 40))
+                            net.snap()
+                            net.rx2c()
+                        lines.append(net.line())
+    return lines
+
+
+def gen(rng, tier):
+    lines = bias_histories(rng.fork("bias"), tier)
     nh = 60 if tier == "quick" else 240      # thorough: ~50 000 histories (700 took 18 minutes)
     for region in range(9):
         r = rng.fork("p%d" % region)
